@@ -7,3 +7,16 @@ def render_corpus(ctx, prop, tier, cfg, world):
     p = sh([os.path.join(ctx['bindir'], 'templ'), 'generate', '-path', d], cwd=ctx['src'], env=goenv(), check=False)
     if p.returncode != 0 or not os.path.exists(os.path.join(d, 'c_templ.go')):
         raise Infra('templ generate failed on the render corpus:\n' + p.stdout[-3000:])
+
+
+def watch_corpus(ctx, prop, tier, cfg, world):
+    """Generate the variant families (seeded) and their Go code with the working tree's generator."""
+    d = os.path.join(ctx['src'], 'zzverif', 'worlds', 'watch')
+    seed = int(os.environ.get('VERIF_SEED', '1') or '1')
+    nfam = cfg['tiers'][tier].get('families', 30)
+    gen = os.path.join(ctx['bindir'], 'watchgen')
+    sh(['go1.26.8' if False else os.environ.get('VERIF_GO', 'go1.26.8'), 'build', '-trimpath', '-o', gen, './zzverif/watchgen'], cwd=ctx['src'], env=goenv())
+    sh([gen, '-seed', str(seed), '-families', str(nfam), '-out', d], cwd=ctx['src'], env=goenv())
+    p = sh([os.path.join(ctx['bindir'], 'templ'), 'generate', '-path', os.path.join(d, 'fam')], cwd=ctx['src'], env=goenv(), check=False)
+    if p.returncode != 0:
+        raise Infra('templ generate failed on the watch corpus:\n' + p.stdout[-3000:])
